@@ -502,6 +502,8 @@ pub struct Driver {
     pub db_path: Option<PathBuf>,
     server: Option<Server>,
     http: Option<HttpHandle>,
+    /// add a Content-Length header to uploads, as a real client sending an unchunked body does
+    pub content_length: bool,
     /// how body bytes are cut into chunks for Http (None = one chunk)
     pub chunker: Option<Box<dyn FnMut(&[u8]) -> Vec<bytes::Bytes> + Send>>,
     /// when set, HTTP requests go to an external server (the real executable) instead of the
@@ -545,6 +547,7 @@ impl Driver {
             db_path: None,
             server: None,
             http: None,
+            content_length: false,
             chunker: None,
             ext: None,
             http_log: None,
@@ -665,7 +668,11 @@ impl Driver {
             }
             Via::Http => {
                 let chunks = self.chunks(data);
-                let r = self.http_call(req_add_version(c, parent, chunks));
+                let mut rq = req_add_version(c, parent, chunks);
+                if self.content_length {
+                    rq.headers.push(("Content-Length".into(), data.len().to_string().into_bytes()));
+                }
+                let r = self.http_call(rq);
                 decode(Endpoint::AddVersion, &r)
             }
         }
@@ -698,7 +705,11 @@ impl Driver {
             },
             Via::Http => {
                 let chunks = self.chunks(data);
-                let r = self.http_call(req_add_snapshot(c, v, chunks));
+                let mut rq = req_add_snapshot(c, v, chunks);
+                if self.content_length {
+                    rq.headers.push(("Content-Length".into(), data.len().to_string().into_bytes()));
+                }
+                let r = self.http_call(rq);
                 decode(Endpoint::AddSnapshot, &r)
             }
         }
